@@ -14,6 +14,7 @@ proved about them holds for EVERY enumeration of each.  `Options.WF` is the expl
 password where given, and the path `/postgres`.
 -/
 import AskarModel.Model.PgOptions
+import AskarModel.Generated.Consts
 import AskarModel.Lemmas.PgOptions
 
 namespace Askar.C08Pg
@@ -217,5 +218,14 @@ example : (pgNewOfUri (lit "postgres://host/d?connect_timeout=x&connect_timeout=
   decide                                                                                        -- the last value counts
 example : pgNew { scheme := sPostgres, host := [0x68], path := Uri.utf8 ['é', 'a'] } = .error .panic := by rfl
 example : adminWitness.WF = true := adminWitness_wf
+
+/-- the model's defaults and consumed query keys are those of the CURRENT source (postgres/provision.rs, re-extracted on every
+    run): changing a default, or consuming one key more or less, breaks this obligation before any input is run -/
+theorem pg_defaults_and_keys_match_source :
+    Askar.Generated.pgDefaultConnectTimeout = PgOptions.defaultConnectTimeout ∧
+    Askar.Generated.pgDefaultIdleTimeout = PgOptions.defaultIdleTimeout ∧
+    Askar.Generated.pgDefaultMinConnections = PgOptions.defaultMinConnections ∧
+    Askar.Generated.pgDefaultMaxConnections = PgOptions.defaultMaxConnections ∧
+    Askar.Generated.pgConsumedKeys.map Askar.Uri.lit = PgOptions.consumed := by decide
 
 end Askar.C08Pg
